@@ -576,5 +576,6 @@ func checkC10(w *World, r *Run) {
 	r.Check(imm, ruleSqlite, "sqlite writer DSN has _txlock=immediate", 0, "mode=rwc…_txlock=immediate", "the writer connection does not take the write lock at BEGIN: two writers can both pass their reads and one fails at commit time after its pre-commit hooks ran")
 	r.Check(wal, ruleSqlite, "sqlite journal mode WAL", 0, "PRAGMA journal_mode = WAL", "the database is not switched to WAL")
 	checkRecoveryVisitsEveryEntry(w, r)
+	checkTxFinalization(w, r)
 	r.NotCovered("the crash points themselves (power loss inside a rename, torn writes, fsync behaviour: the store does not fsync, which no rule here examines); the sftp store has the same window and no recovery (outside this property's configuration: filesystem + SQLite); that GC removes parts restored for a transaction that had in fact committed (C09)")
 }
